@@ -251,6 +251,29 @@ local function run(w)
       out = out:gsub('^R=', 'R=' .. c, 1)
     end
     return out
+  elseif op == 'split_bin' or op == 'split_hex' then
+    -- the real lpegrex patterns are upvalues of bn.from
+    local want = op == 'split_bin' and 'binpatt' or 'hexpatt'
+    local patt
+    for i=1,20 do
+      local name, val = debug.getupvalue(bn.from, i)
+      if not name then break end
+      if name == want then patt = val end
+    end
+    assert(patt, 'pattern not found')
+    local neg, int, frac, exp = patt:match(bytes_of_hex(w[2]))
+    if neg == nil then return 'nil' end
+    local function hx(t) if #t == 0 then return '-' end return (t:gsub('.', function(c) return string.format('%02x', c:byte()) end)) end
+    return string.format('%s %s %s %s', tostring(neg), hx(int), frac and hx(frac) or 'false', exp and hx(exp) or 'nil')
+  elseif op == 'from_text' then
+    local ok, n = pcall(bn.from, bytes_of_hex(w[2]))
+    if not ok then
+      if tostring(n):find('malformed', 1, true) then return '!err malformed' end
+      error(n, 0)
+    end
+    if bn.isbint(n) then return hex_of_limbs(n) end
+    if math.type(n) == 'float' then return 'float' end
+    return 'other:' .. tostring(n)
   elseif op == 'lua_tonumber' then   -- the VM functions Model3.v models, called directly
     local v = tonumber(bytes_of_hex(w[2]), int_of_hex(w[3]))
     if v == nil then return 'nil' end
